@@ -4,6 +4,7 @@ import (
 	"fmt"
 	"go/ast"
 	"go/token"
+	"sort"
 	"strings"
 
 	"mgcheck/core"
@@ -883,8 +884,63 @@ func c13Coalesce(c *core.Ctx, k *tkit) {
 			}
 		}
 	}
+	// boundary values: the same law at the ends of the int64 nanosecond line, where "adjacent" (next.start == end+1)
+	// computed by subtraction or addition would overflow. The expected result is computed with overflow-free tests.
+	bnd := &cond{name: "boundary-timestamps"}
 	if ok {
-		report(c, rC13Coal, f, []*cond{pts, sep, inf}, n)
+		const lo, hi = int64(-1 << 63), int64(1<<63 - 1)
+		qs := []int64{lo + 1, lo + 2, -1, 0, 1, hi - 2, hi - 1}
+		var ivs []iv
+		for i, a := range qs {
+			for _, b := range qs[i:] {
+				ivs = append(ivs, iv{a, b})
+			}
+		}
+		for _, a := range ivs {
+			for _, b := range ivs {
+				var elems []ordabs.Value
+				elems = append(elems, k.tsiv(a.s, a.e), k.tsiv(b.s, b.e))
+				in.Reset()
+				in.Fuel = 1000000
+				out, err := in.Call(f, nil, []ordabs.Value{&ordabs.Slice{Elems: &elems}})
+				if !runORD(c, rC13Coal, f.Name, f, err) {
+					ok = false
+					break
+				}
+				n++
+				x, y := a, b
+				if y.s < x.s || (y.s == x.s && y.e < x.e) {
+					x, y = y, x
+				}
+				var want []iv
+				if y.s <= x.e || (x.e < hi && y.s == x.e+1) {
+					e := x.e
+					if y.e > e {
+						e = y.e
+					}
+					want = []iv{{x.s, e}}
+				} else {
+					want = []iv{x, y}
+				}
+				var got []iv
+				if res, _ := out[0].(*ordabs.Slice); res != nil {
+					for _, e := range *res.Elems {
+						r := e.(*ordabs.Rec)
+						got = append(got, iv{r.Fields["Start"].(*ordabs.Rec).Fields["Timestamp"].(int64), r.Fields["End"].(*ordabs.Rec).Fields["Timestamp"].(int64)})
+					}
+				}
+				sort.Slice(got, func(i, j int) bool { return got[i].s < got[j].s })
+				if fmt.Sprint(got) != fmt.Sprint(want) && bnd.bad == "" {
+					bnd.bad = fmt.Sprintf("input [%d,%d] and [%d,%d] -> output %v, want %v (intervals far apart must not be merged, touching ones must)", a.s, a.e, b.s, b.e, got, want)
+				}
+			}
+			if !ok {
+				break
+			}
+		}
+	}
+	if ok {
+		report(c, rC13Coal, f, []*cond{pts, sep, inf, bnd}, n)
 	}
 	// count adjustment in Coalesce
 	cf := c.MustFunc(rC13Coal, "factstore", "TemporalStore.Coalesce")
